@@ -3,7 +3,7 @@
 
 use crate::alloc::{AllocEv, SimAlloc, Zones};
 use crate::model::{Class, Path, RefMmu, ADDR, P, W};
-use crate::seams::{call, call_many, set_run, Code, DeallocObs, Outcome, RunState};
+use crate::seams::{call, call_many, call_twin, set_run, Code, DeallocObs, Outcome, RunState};
 use crate::spec::{spec, Spec};
 use crate::steps::{Config, Replay, Size, Step, View, Violation};
 use std::collections::{BTreeMap, BTreeSet};
@@ -206,6 +206,14 @@ impl<'a> Exec<'a> {
         w.rec_drop_aliases();
         w.rec_slot = None;
         set_run(core::ptr::null_mut());
+    }
+
+    fn view_name(&self) -> &'static str {
+        match self.cfg.view {
+            View::Offset { .. } => "OffsetPageTable",
+            View::Mapped => "MappedPageTable",
+            View::Recursive { .. } => "RecursivePageTable",
+        }
     }
 
     fn in_rec_slot(&self, va: u64) -> bool {
@@ -711,6 +719,19 @@ impl<'a> Exec<'a> {
         }
         self.check_flush(i, step, &s, out, cr3_before)?;
 
+        // where the documentation leaves the error kind open the implementations must still agree:
+        // the same (failing, side-effect free) call through the other mapper implementation
+        if s.any_err && out.code != Code::Ok && matches!(step, Step::Unmap { .. } | Step::UpdateFlags { .. } | Step::TranslatePage { .. }) && !matches!(self.cfg.view, View::Mapped) {
+            let twin = call_twin(step);
+            self.stats.calls += 1;
+            self.stats.probe("same_call_through_the_other_implementation");
+            if let Some(msg) = &twin.panic {
+                return Err(viol(&["C02"], "panic", i, format!("{name} through MappedPageTable panicked: {msg}")));
+            }
+            if twin.code != out.code {
+                return Err(viol(&["C02"], "outcome-across-implementations", i, format!("{name} on a page in state {} returned {} through the run's mapper ({}) and {} through MappedPageTable", s.class.name(), out.code.name(), self.view_name(), twin.code.name())));
+            }
+        }
         // memory image
         let failed = out.code != Code::Ok;
         if let Err((is_table, msg)) = self.image_check(&mut s.after, pre_mem, &[]) {
@@ -903,6 +924,7 @@ impl<'a> Exec<'a> {
         if !self.rs.alloc.log.is_empty() {
             return Err(viol(&["C09"], "alloc-outside-map", i, "a translation called the frame allocator".to_string()));
         }
+        let mut twins = 0;
         for (k, &va) in self.probes.clone().iter().enumerate() {
             let m = self.rs.model.translate(va);
             let h = hwwalk::walk(&w.mem, root, va);
@@ -951,6 +973,15 @@ impl<'a> Exec<'a> {
                 let o = &outs[4 * k + 1 + j];
                 let np_leaf = acc == Code::Ok && crate::spec::leaf_not_present(&self.rs.model, st.page().unwrap(), *sz);
                 let ok = if any_err { o.code != Code::Ok } else { (o.code == acc && (o.code != Code::Ok || o.frame == exp_frame)) || (np_leaf && o.code == Code::NotMapped) };
+                if ok && any_err && twins < 2 && !matches!(self.cfg.view, View::Mapped) {
+                    twins += 1;
+                    let twin = call_twin(st);
+                    self.stats.calls += 1;
+                    self.stats.probe("same_call_through_the_other_implementation");
+                    if twin.code != o.code {
+                        return Err(viol(&["C02"], "outcome-across-implementations", i, format!("translate_page::<{}>({:#x}) in state {} returned {} through the run's mapper ({}) and {} through MappedPageTable", sz.name(), st.page().unwrap(), class.name(), o.code.name(), self.view_name(), twin.code.name())));
+                    }
+                }
                 if !ok {
                     let mut props = vec!["C02"];
                     if o.code == Code::Ok || acc == Code::Ok {
